@@ -22,6 +22,22 @@ const STRS: [&str; 44] = [
     "ends with <![CDATA[", "<![CDATA[\r\nx", "<![CDATA[\r", "a<![CDATA[]]>b", "]]><![CDATA[", "&#13;", "]]>&#13;<![CDATA[",
 ];
 
+/// a `Write` target that accepts at most `max` bytes per call (legal: pipes and sockets do it)
+pub struct ShortSink {
+    pub buf: Vec<u8>,
+    pub max: usize,
+}
+impl std::io::Write for ShortSink {
+    fn write(&mut self, b: &[u8]) -> std::io::Result<usize> {
+        let n = b.len().min(self.max);
+        self.buf.extend_from_slice(&b[..n]);
+        Ok(n)
+    }
+    fn flush(&mut self) -> std::io::Result<()> {
+        Ok(())
+    }
+}
+
 /// XML 1.0 `Char`
 pub fn xml_char(c: char) -> bool {
     matches!(c as u32, 0x9 | 0xA | 0xD | 0x20..=0xD7FF | 0xE000..=0xFFFD | 0x10000..=0x10FFFF)
@@ -902,6 +918,20 @@ pub fn oracle_program(sink: &mut Sink, line: &str, prog: &Program, run: &Run) {
             }
             // direct blobs
             if let Ok(mut r) = e57::E57Reader::new(std::io::Cursor::new(run.file.clone())) {
+                // … also into a target that legally accepts only part of what it is offered (a pipe, a socket): the
+                // caller must still receive every byte, or an error
+                for (k, (off, len, bytes)) in exp.blobs.iter().enumerate() {
+                    let mut tgt = ShortSink { buf: vec![], max: 1 + (k * 97 + bytes.len()) % 300 };
+                    match r.blob(&e57::Blob::new(*off, *len), &mut tgt) {
+                        Ok(n) if n == *len && &tgt.buf == bytes => {}
+                        Ok(n) => {
+                            let d = format!("blob at {off} read into a target that accepts at most {} bytes per write: {} bytes written, {n} reported, {} delivered, equal={}", tgt.max, bytes.len(), tgt.buf.len(), &tgt.buf == bytes);
+                            sink.fail("C06", "blob/short-write-target", line, &d);
+                            sink.fail("C16", "device/short-write-changes-read", line, &d);
+                        }
+                        Err(_) => sink.fail("C06", "blob/read-back", line, &format!("blob at {off}: error when read into a target with short writes")),
+                    }
+                }
                 for (off, len, bytes) in &exp.blobs {
                     let mut out = vec![];
                     match r.blob(&e57::Blob::new(*off, *len), &mut out) {
